@@ -14,6 +14,9 @@ TRUSTED = [
     "naive-vs-aware raises TypeError in model and implementation alike",
 ]
 ASSUMPTIONS = [
+    "PEP 495 fold is irrelevant here and not modelled: for one shared tzinfo object (and for naive operands) CPython's < and - "
+    "work on the wall clock and ignore fold, the date->datetime coercion yields fold=0, and dt2 + delta ends in "
+    "`+ timedelta` (fold reset to 0); checked on every run (oracle clause `fold`, operands with fold=1 are generated)",
     "\"dt2 + relativedelta(dt1, dt2) equals dt1 exactly\" is read as the same calendar instant when exactly one operand is a "
     "date (Python's date == datetime is False by type): the date is promoted to midnight before comparing",
     "aware operands share the same tzinfo object (the property's 'common zone'); two different tzinfo objects are outside the model",
@@ -188,6 +191,19 @@ def check_pair(ctx, a, b):
                       % (M, s0, s1), case)
     if M:
         ctx.count("oracle_month_part_nonzero")
+    # PEP 495 fold: ignored by <, - for one shared tzinfo object (and for naive operands), reset by + timedelta
+    if isinstance(a, datetime.datetime):
+        af = a.replace(fold=1 - a.fold)
+        try:
+            df = relativedelta(af, b)
+            same = L.rd_wire(df) == L.rd_wire(d)
+        except Exception:
+            same = False
+        ctx.count("fold_flip_checked")
+        if not same:
+            ctx.violation("flipping dt1.fold changes relativedelta(dt1, dt2)", dict(case, law="fold"))
+        if isinstance(back, datetime.datetime) and back.fold != 0:
+            ctx.violation("dt2 + relativedelta(dt1, dt2) has fold=%d" % back.fold, dict(case, law="fold"))
     if a2 == b2:
         ctx.count("oracle_equal_instants")
         if d:
